@@ -655,6 +655,8 @@ def monitors(tr, props):
                         v.append(('C18', 'wrong-result', 'future yielded %s expected ok %s' % (ready[0][1:], src)))
                 if end1 == 'e' and ready[0][1:] != ['err', '900']:
                     v.append(('C18', 'wrong-result', 'future yielded %s expected err 900' % (ready[0][1:],)))
+    if kind == 'resub' and ab and ab['kind'] in ('deadlock', 'steplimit'):
+        v.append(('C15', 'worker-survives-resubscription', 'worker tasks still alive after two finished subscriptions of %s: %s' % (meta['op'], json.dumps(ab)[:300])))
     if kind == 'workers':
         # every task other than main must have ended by the quiescence check
         if ab and ab['kind'] in ('deadlock', 'steplimit'):
